@@ -41,7 +41,10 @@ ASSUMPTIONS = ["git verifies the `gpgsig` header of commits in a SHA-1 repositor
 RULE = ("case = stored commit/tag bytes with 0..4 signature headers in any header position, continuation lines, gpgsig-prefixed other "
         "headers, inline PGP/SSH/X509 blocks (buckets sigs, canonical, permuted, dups, oddident, oddhdr, eofhdr, trunc, junk), optionally one "
         "exported field mutated after Decode, or (cverify/tverify) a template with a real OpenPGP signature in the gpgsig / gpgsig-sha256 "
-        "header or inline; ids of 40 or 64 hex digits (fmt); non-trivial = contains a gpgsig header or an armor line, or is a mutation / "
+        "header or inline; plus, on every run, a grid `*-long-<kind>-<L>` of commits and tags with one line of exactly L bytes, L = 4095, 4096, "
+        "4097 (thorough: also 8191, 8192, 8193, 12288: the multiples of the 4096-byte bufio buffer stripHeaderSignatures reads with, +-1), as "
+        "an extra header / a continuation line / the author-committer-tagger line before or after the signature header, or as a continuation "
+        "line inside the gpgsig value, and a cverify/tverify case with a real signature after such a line; ids of 40 or 64 hex digits (fmt); non-trivial = contains a gpgsig header or an armor line, or is a mutation / "
         "verify case; distinct by content")
 
 VISIBLE_C = ["msg", "tree", "addparent", "enc", "addextra", "a.name", "a.email", "a.ts", "a.tz", "c.name", "c.email", "c.ts", "c.tz", "hash"]
@@ -65,10 +68,103 @@ def flat(groups):
     return b"".join(b"".join(ls) for _, ls in groups)
 
 
-def verify_case(rng, op):
+# ---- header lines at and around the 4096-byte buffer of the pooled bufio.Reader stripHeaderSignatures reads with
+# (a reader that hands a long line back in buffer-sized pieces re-classifies each piece as a new line: a lone-LF leftover
+# looks like the header/body separator, a tail piece of a gpgsig continuation line looks like an ordinary header)
+LONG_QUICK = [4095, 4096, 4097]
+LONG_THOROUGH = [4095, 4096, 4097, 8191, 8192, 8193, 12288]
+LONG_KINDS_C = ["hdr-before", "hdr-after", "cont-before", "sigcont", "ident-before", "hdr-before-2sig"]
+LONG_KINDS_T = ["hdr-before", "hdr-after", "cont-before", "sigcont", "ident-before"]
+PADS = [b"A", b"abcXYZ019+/=", b"abc def", b"g ps-"]
+
+
+def long_line(rng, prefix, L):
+    """one LF-terminated line of exactly L bytes before the LF, starting with prefix; the padding never ends in a blank"""
+    n = L - len(prefix)
+    pad = G.rbytes(rng, n, rng.choice(PADS)) if n > 0 else b""
+    if pad.endswith(b" "):
+        pad = pad[:-1] + b"z"
+    return prefix + pad + b"\n"
+
+
+def long_groups(rng, g, kind, L, sigkeys, first_pos):
+    """header groups g + one line of length L placed relative to the signature header(s) as kind says"""
+    g = list(g)
+    sigs = []
+    for key in sigkeys:
+        body = G.sig_body(rng) + [b""]
+        ls = G.multiline_header(key, body)
+        if kind == "sigcont":
+            k = rng.randrange(1, len(ls))
+            ls.insert(k, long_line(rng, b" ", L))
+        sigs.append(("sig", ls))
+    if kind == "ident-before":
+        who = b"tagger " if any(k == "object" for k, _ in g) else rng.choice([b"author ", b"committer "])
+        tail = b" <" + G.email(rng) + b"> " + G.ts_canon(rng) + b" " + rng.choice(G.ZONES)
+        line = long_line(rng, who, L - len(tail))[:-1] + tail + b"\n"
+        g = [(k, ls) for k, ls in g if k != who.strip().decode()]
+        at = min(len(g), 3 if who == b"tagger " else 1 + sum(1 for k, _ in g if k == "parent") + (who == b"committer "))
+        g.insert(at, (who.strip().decode(), [line]))
+        return g + sigs
+    if kind == "sigcont":
+        at = rng.randrange(first_pos, len(g) + 1)
+        return g[:at] + sigs + g[at:]
+    if kind == "cont-before":
+        longg = ("extra", [b"mergetag v\n", long_line(rng, b" ", L)] + ([b" tail\n"] if rng.random() < 0.5 else []))
+    else:
+        longg = ("extra", [long_line(rng, rng.choice([b"x-long ", b"mergetag ", b"note "]), L)])
+    at = rng.randrange(first_pos, len(g) + 1)
+    if kind == "hdr-after":
+        return g[:at] + sigs + [longg] + g[at:]
+    between = [("extra", [b"x-mid v\n"])] if rng.random() < 0.4 else []
+    return g[:at] + [longg] + between + sigs + g[at:]
+
+
+def long_commit(rng, kind, L, hl=40):
+    G.DEFAULT_HL[0] = hl
+    try:
+        g = G.commit_headers(rng, nsig=0, n256=0)
+        primary = b"gpgsig" if hl == 40 else b"gpgsig-sha256"
+        keys = [b"gpgsig", b"gpgsig-sha256"] if kind.endswith("-2sig") else [primary]
+        g = long_groups(rng, g, kind[:-5] if kind.endswith("-2sig") else kind, L, keys, 1)
+        return G.assemble(g, G.message(rng, rng.choice(["plain", "plain", "nolf", "headerlike"])))
+    finally:
+        G.DEFAULT_HL[0] = 40
+
+
+def long_tag(rng, kind, L, hl=40):
+    G.DEFAULT_HL[0] = hl
+    try:
+        g = long_groups(rng, G.tag_headers(rng), kind, L, [rng.choice([b"gpgsig-sha256", b"gpgsig-sha256", b"gpgsig"])], 3)
+        return G.assemble(g, G.tag_body(rng, nsigblocks=1))
+    finally:
+        G.DEFAULT_HL[0] = 40
+
+
+def long_grid(rng, tier):
+    """every kind x every length, for commits and tags (SHA-1 ids; in the thorough tier also 64-digit ids), and one
+    real-signature verify case per length"""
+    cases = []
+    for L in (LONG_QUICK if tier == "quick" else LONG_THOROUGH):
+        for hl in ((40,) if tier == "quick" else (40, 64)):
+            fmt, sfx = ("sha1", "") if hl == 40 else ("sha256", "-256")
+            for kind in LONG_KINDS_C:
+                cases.append({"op": "cpay", "bucket": "cpay-long-%s-%d%s" % (kind, L, sfx), "fmt": fmt, "raw": long_commit(rng, kind, L, hl).hex()})
+            for kind in LONG_KINDS_T:
+                cases.append({"op": "tpay", "bucket": "tpay-long-%s-%d%s" % (kind, L, sfx), "fmt": fmt, "raw": long_tag(rng, kind, L, hl).hex()})
+        cases.append({"op": "strip", "bucket": "strip-long-%d" % L,
+                      "raw": (long_commit(rng, "hdr-before", L) if rng.random() < 0.5 else long_tag(rng, "sigcont", L)).hex()})
+        cases.append(verify_case(rng, "cverify", long=L))
+        cases.append(verify_case(rng, "tverify", long=L))
+    return cases
+
+
+def verify_case(rng, op, long=None):
     """a template around ONE real signature: pre ++ embed(where, sig) ++ post, and the payload that gets signed (git's
     payload of the finished object unless the scenario says otherwise)"""
     fmt = "sha256" if rng.random() < 0.4 else "sha1"
+    if long and op == "cverify":
+        fmt = "sha1"        # Commit.Verify never looks at gpgsig-sha256 (known finding): the verdicts are comparable in SHA-1 repositories
     G.DEFAULT_HL[0] = 64 if fmt == "sha256" else 40
     try:
         if op == "cverify":
@@ -85,6 +181,9 @@ def verify_case(rng, op):
     if op == "cverify":
         primary, other = ("gpgsig", "gpgsig-sha256") if fmt == "sha1" else ("gpgsig-sha256", "gpgsig")
         scen = pick_weighted(rng, [(5, "good"), (2, "other-header"), (2, "both"), (1, "foreign"), (2, "two-blocks"), (1, "tampered")])
+        if long:
+            scen = "longhdr%d" % long
+            g.insert(rng.randrange(1, len(g) + 1), ("extra", [long_line(rng, b"x-long ", long)]))
         where = other if scen == "other-header" else primary
         payload = G.assemble(g, msg)
         groups = list(g)
@@ -97,12 +196,18 @@ def verify_case(rng, op):
         elif scen == "tampered":
             payload = payload[:-1] + b"X" if payload else b"X"
         pos = rng.randrange(1, len(groups) + 1)
+        if long:        # the real signature header follows the long line
+            pos = rng.randrange(1 + max(i for i, x in enumerate(groups) if x[0] == "extra" and len(x[1][0]) > 4000), len(groups) + 1)
         pre, post = flat(groups[:pos]), flat(groups[pos:]) + b"\n" + msg
     else:
         scen = pick_weighted(rng, [(5, "good"), (2, "hdr256"), (1, "hdr-gpgsig"), (1, "two-inline"), (1, "tampered"), (1, "adjacent"), (1, "marker-hdr")])
         where = "inline"
         groups = list(g)
         body = msg
+        if long:        # a long header line, then a gpgsig-sha256 header git removes from the payload of the inline signature
+            scen = "longhdr%d" % long
+            groups.append(("extra", [long_line(rng, b"x-long ", long)]))
+            groups.append(fake(b"gpgsig-sha256"))
         if scen == "hdr256":
             groups.append(fake(b"gpgsig-sha256"))
         elif scen == "hdr-gpgsig":
@@ -292,7 +397,7 @@ class Main(Suite):
             else:
                 c = {"op": op, "bucket": "strip", "raw": (G.raw_commit(rng, "sigs") if rng.random() < 0.6 else G.raw_tag(rng, "sigs")).hex()}
             cases.append(c)
-        return cases
+        return cases + long_grid(rng, tier)
 
     def mutation(self, rng, c, visible, invisible):
         m = rng.choice(visible) if rng.random() < 0.65 else rng.choice(invisible)
